@@ -15,23 +15,23 @@ pub proof fn lemma_ops_of_push(h: Seq<Ev>, e: Ev)
 }
 
 /// prefix sums do not depend on what follows
-pub proof fn lemma_sum_push(ops: Seq<DiffOp>, x: DiffOp, i: int)
+pub proof fn lemma_sums_push(ops: Seq<DiffOp>, x: DiffOp, i: int)
   requires 0 <= i <= ops.len()
   ensures osum(ops.push(x), i) == osum(ops, i), nsum(ops.push(x), i) == nsum(ops, i), esum(ops.push(x), i) == esum(ops, i)
   decreases i
 {
-    if i > 0 { lemma_sum_push(ops, x, i - 1); assert(ops.push(x)[i - 1] == ops[i - 1]); }
+    if i > 0 { lemma_sums_push(ops, x, i - 1); assert(ops.push(x)[i - 1] == ops[i - 1]); }
 }
 
-pub proof fn lemma_sum_mono(ops: Seq<DiffOp>, i: int, j: int)
+pub proof fn lemma_sums_mono(ops: Seq<DiffOp>, i: int, j: int)
   requires 0 <= i <= j <= ops.len()
   ensures osum(ops, i) <= osum(ops, j), nsum(ops, i) <= nsum(ops, j), esum(ops, i) <= esum(ops, j),
       esum(ops, j) - esum(ops, i) <= osum(ops, j) - osum(ops, i), esum(ops, j) - esum(ops, i) <= nsum(ops, j) - nsum(ops, i),
       0 <= esum(ops, i) <= osum(ops, i), esum(ops, i) <= nsum(ops, i)
   decreases j
 {
-    if j > i { lemma_sum_mono(ops, i, j - 1); }
-    else if i > 0 { lemma_sum_mono(ops, i - 1, i - 1); }
+    if j > i { lemma_sums_mono(ops, i, j - 1); }
+    else if i > 0 { lemma_sums_mono(ops, i - 1, i - 1); }
 }
 
 /// a start state as a creator configures it: canonical (no open run), box representable in usize
@@ -78,12 +78,12 @@ pub proof fn lemma_hist_inv<Old: Index<usize> + ?Sized, New: Index<usize> + ?Siz
         let st0 = run_rel(rel, r0, h0); let st = run_rel(rel, r0, h);
         let x = op_of(e);
         assert(ops == ops0.push(x) && n == n0 + 1 && ops[n0] == x);
-        lemma_sum_push(ops0, x, n0);
+        lemma_sums_push(ops0, x, n0);
         assert(osum(ops, n) == osum(ops0, n0) + olen(x) && nsum(ops, n) == nsum(ops0, n0) + nlen(x) && esum(ops, n) == esum(ops0, n0) + elen(x));
-        lemma_sum_mono(ops0, 0, n0);
+        lemma_sums_mono(ops0, 0, n0);
         let ex = r0.lvl >= 2;
         assert forall|i: int| 0 <= i < n implies #[trigger] op_ok(old, new, ops, i, full_box(r0), ex) by {
-            lemma_sum_push(ops0, x, i);
+            lemma_sums_push(ops0, x, i);
             if i < n0 {
                 assert(ops[i] == ops0[i]);
                 assert(op_ok(old, new, ops0, i, full_box(r0), ex));
@@ -99,10 +99,10 @@ pub proof fn lemma_hist_inv<Old: Index<usize> + ?Sized, New: Index<usize> + ?Siz
             DiffOp::Delete { old_index, old_len, new_index } => esum(ops, i) <= new_index && new_index + (esum(ops, n) - esum(ops, i)) <= imax(st.nc, st.pn),
             _ => true,
         } by {
-            lemma_sum_push(ops0, x, i);
+            lemma_sums_push(ops0, x, i);
             if i < n0 {
                 assert(ops[i] == ops0[i]);
-                lemma_sum_mono(ops0, i, n0);
+                lemma_sums_mono(ops0, i, n0);
             }
         }
     }
@@ -124,17 +124,17 @@ pub proof fn lemma_hist_ops<Old: Index<usize> + ?Sized, New: Index<usize> + ?Siz
     assert forall|i: int| 0 <= i < n implies #[trigger] op_ok(old, new, ops, i, bc, false) by {
         let ex = r0.lvl >= 2;
         assert(op_ok(old, new, ops, i, full_box(r0), ex));
-        lemma_sum_mono(ops, i + 1, n);
-        lemma_sum_mono(ops, i, i + 1);
+        lemma_sums_mono(ops, i + 1, n);
+        lemma_sums_mono(ops, i, i + 1);
     }
     if r0.lvl >= 2 {
         assert forall|i: int| 0 <= i < n implies #[trigger] op_ok(old, new, ops, i, bc, true) by {
             assert(op_ok(old, new, ops, i, full_box(r0), true));
-            lemma_sum_mono(ops, i + 1, n);
-            lemma_sum_mono(ops, i, i + 1);
+            lemma_sums_mono(ops, i + 1, n);
+            lemma_sums_mono(ops, i, i + 1);
         }
     }
-    lemma_sum_mono(ops, 0, n);
+    lemma_sums_mono(ops, 0, n);
     assert(box_wf(bc));
     assert(ops_ok(old, new, ops, bc, false));
     assert(ops_full(old, new, ops, bc, false));
@@ -195,7 +195,7 @@ pub proof fn lemma_run_ops_acc(rel: Rel, st: St, ops: Seq<DiffOp>)
         assert(o0.push(x) =~= ops);
         lemma_evs_of_push(o0, x);
         lemma_run_push(rel, st, evs_of(o0), ev_of(x));
-        lemma_sum_push(o0, x, n0);
+        lemma_sums_push(o0, x, n0);
         assert(ops[n0] == x);
     }
 }
